@@ -35,6 +35,14 @@ for pid, text, tech in [
   ('C19', "Theorems (Props/C19.v): a locked file refuses delete/rename/put, lock then unlock restores the entry, changing protection touches no other path. Impl side: lock-heavy histories on all file systems (DOS lock bit, ProDOS access, CP/M and FAT read-only).", "Coq proof (locked_blocks, lock_unlock, lock_frame) + lock-heavy histories correspondence + protection oracle"),
 ]:
     CLAIMS[pid] = dict(text=text + FS_NOTE, technique=tech, design_ref='DESIGN.md section 5 (file-system block)')
+CLAIMS['C06'] = dict(
+   text="Theorems (Props/C06.v): every compressed/encoded on-disk form decodes to the in-memory content (IMD run compression, TD0 sector packing, 6&2 / 5&3 nibble streams), and what a user observes of a volume is determined by directory + allocation map alone. Impl side: after every 4th step and at the end of each history the image is serialised, reloaded with and without the extension hint, and file system, free space, tree (with metadata) and every file are compared; second serialisation must be byte-identical (buffers flushed)." + FS_NOTE,
+   technique="Coq proof (codec round trips, observation determinacy) + reload oracle on every container + model/impl step correspondence",
+   design_ref='DESIGN.md section 5 C06')
+CLAIMS['C09'] = dict(
+   text="Theorems (Props/C09.v): the CRC-32 table regenerated from woz.rs equals the reflected polynomial table entry by entry; TD0 sector pack/unpack and IMD track compress/expand are exact inverses for every content and size; the 2MG offsets/lengths written by to_bytes address exactly data, comment and creator. Tie: crc32, crc16 and the IMD track record as serialised must equal the extracted model; impl-side codec oracle on every container: to_bytes -> from_bytes -> to_bytes fixpoint, type/geometry/capacity/kind, every sector, metadata written through put_metadata read back before and after reload (incl. newline and 0x1A values), WOZ CRC32 and 2MG offsets recomputed independently. WOZ/TD0 whole-file parsers are covered by the oracle only (LZHUF is an external crate).",
+   technique="Coq proof (CRC table, TD0/IMD codecs, 2MG offsets) + extracted-model correspondence + serialise/reload fixpoint oracle",
+   design_ref='DESIGN.md section 5 C09')
 PLANNED = {f'C{i:02d}': 'check not built yet in this round (planned; see DESIGN.md section 10)' for i in range(1, 21)}
 
 def main():
